@@ -102,6 +102,37 @@ def gen_two_failures(rng, sid, first, second, mode1, mode2):
     return {"id": sid, "cluster": cluster, "ops": ops, "_failed": [(first, mode1), (second, mode2)], "_model": False, "_two": second}
 
 
+def gen_loss_overwrite_loss(rng, sid, first, second, mode1, mode2):
+    """ReplicaCount 2 on 4 members, fragments of several tables, balancer timer off: a member is lost; while the backup
+    fragments are still being handed over (one table per balancer run) every key is overwritten; the hand-over is completed;
+    then a second member is lost. Only one member was lost since the overwrites were acknowledged: they must all be readable."""
+    d = "c02u%d" % sid
+    keys = [dmaplib.hx("%s-k%03d" % (d, i)) for i in range(160)]
+    ops = []
+    for k in keys:
+        ops.append({"op": "put", "c": rng.choice(["emb0", "emb1", "emb2", "emb3", "cc"]), "d": d, "k": k, "v": dmaplib.hx("%s#1%s" % (k[-6:], "." * 40))})
+    live = [0, 1, 2, 3]
+    ops.append({"op": "stop", "m": first, "c": mode1})
+    live.remove(first)
+    ops.append({"op": "waitstable", "ms": 25000})
+    for k in keys:
+        ops.append({"op": "put", "c": "emb%d" % rng.choice(live), "d": d, "k": k, "v": dmaplib.hx("%s#2%s" % (k[-6:], "." * 40))})
+    for _ in range(8):
+        for m in live:
+            ops.append({"op": "balance", "m": m})
+    ops.append({"op": "waitstable", "ms": 25000})
+    ops.append({"op": "hstate", "d": d})
+    ops.append({"op": "stop", "m": second, "c": mode2})
+    live.remove(second)
+    ops.append({"op": "waitstable", "ms": 25000})
+    for k in keys:
+        ops.append({"op": "get", "c": "emb%d" % rng.choice(live), "d": d, "k": k})
+        ops.append({"op": "get", "c": "cc", "d": d, "k": k})
+    cluster = {"members": 4, "replicas": 2, "wq": 1, "rq": 1, "partitions": 31, "table": 256, "readrepair": False, "evict_workers": 1,
+               "balancer_ms": 3600000}
+    return {"id": sid, "cluster": cluster, "ops": ops, "_failed": [(first, mode1), (second, mode2)], "_model": False, "_two": second}
+
+
 def colocated_before_loss(sc, obs):
     """D40 after a fail-over: below ReplicaCount members the re-balancing can leave the primary AND the backup copy of a
     partition on one member (the previous owner hands the primary fragment to the new owner, which already holds the backup
@@ -235,6 +266,10 @@ def run(res):
     for j, (a, b) in enumerate(orders if res.tier != "quick" else orders[::2]):
         rng = vlib.rng_for(res.seed, PID, "two", j)
         scs.append(gen_two_failures(rng, 7000 + j, a, b, rng.choice(["graceful", "abrupt"]), rng.choice(["graceful", "abrupt"])))
+    for j in range(4 if res.tier == "quick" else 16):
+        rng = vlib.rng_for(res.seed, PID, "lol", j)
+        a, b = rng.sample(range(4), 2)
+        scs.append(gen_loss_overwrite_loss(rng, 8000 + j, a, b, rng.choice(["graceful", "abrupt"]), rng.choice(["graceful", "abrupt"])))
     nop = 6 if res.tier == "quick" else 45
     for j in range(nop):
         scs.append(gen_opcrash(vlib.rng_for(res.seed, PID, "opcrash", j), 5000 + j, PUT_POINTS[j % len(PUT_POINTS)]))
